@@ -53,5 +53,7 @@ def pairs():
                   replace=["mi_segment_page_clear/c_page_clear_rec", "mi_segment_free/c_segment_free_rec", "mi_segment_abandon/c_segment_abandon_rec", "mi_segment_try_purge/c_seg_try_purge_rec3"], functions=["_mi_segment_page_free"], timeout=300),
       "segment_page_abandon": dict(name="segment_page_abandon", entry="h_segment_page_abandon", harness="harness/seg_pagefree.c", enforce="_mi_segment_page_abandon", config="SCALED", label="P", unwind=14, cbmc_flags=NOPTR,
                   replace=["mi_segment_abandon/c_segment_abandon_rec"], functions=["_mi_segment_page_abandon"], timeout=300),
+      "page_clear": dict(name="page_clear", entry="h_page_clear", harness="harness/seg_pagefree.c", enforce="mi_segment_page_clear", config="SCALED", label="P", unwind=14, cbmc_flags=NOPTR,
+                  replace=["mi_segment_span_free_coalesce/c_coalesce_rec", "mi_option_is_enabled", "_mi_os_reset"], functions=["mi_segment_page_clear"], timeout=300),
       "seg_ensure_committed": P("seg_ensure_committed", "h_ensure_committed", "mi_segment_ensure_committed", ["mi_segment_commit/c_seg_commit_rec"]),
     }
